@@ -771,7 +771,7 @@ func (i *interpreter) replayVals(m map[string]uint64) []ReplayVal {
 	for _, n := range i.nondet {
 		rv := ReplayVal{Name: n.Name, Kind: n.Kind}
 		switch n.Kind {
-		case "string", "bytes":
+		case "string", "bytes", "uf":
 			rv.Bytes = []uint64{}
 			for _, t := range n.Terms {
 				rv.Bytes = append(rv.Bytes, get(t))
